@@ -54,7 +54,7 @@ def parseCall (c : Json) : Call :=
     certAssertion := parseCertArg c "cert_assertion"
     certAdvice := parseCertArg c "cert_advice"
     md := (arrD c "md_keys").filterMap parseMdKey
-    extraAdvice := if (obj? c "advice_identity").isSome then some { signed := false, schemaValid := true } else none }
+    extraAdvice := (obj? c "advice_identity").isSome }
 
 /-- The recipient's side of the case: configuration, clock, outstanding request; the issued content. -/
 def parseInput (c : Json) : Input :=
